@@ -74,7 +74,7 @@ func runRounds(args []string) (map[string]any, error) {
 	nbulk := 2 + *c.n/300
 	for i := 0; i < nbulk; i++ {
 		tid++
-		exec.RunRounds(w, in, st, tid, exec.GenRoundsBulk(r))
+		exec.RunRounds(w, in, st, tid, exec.GenRoundsBulk(r, i == 0))
 	}
 	for i := 0; i < *nblock; i++ {
 		tid++
